@@ -499,6 +499,10 @@ func newBuffer(br *Reader) (*buffer, error) {
 	}
 	n, err = io.ReadFull(br.r, b.data)
 	if err != nil {
+		if err == io.EOF {
+			// The length prefix promised a record body.
+			err = io.ErrUnexpectedEOF
+		}
 		return nil, err
 	}
 	if n != size {
